@@ -58,23 +58,43 @@ TABLE = {
     "C17": ("TLA+ relation MomentumRel with the momentum signal recomputed exactly by TLC (dyadic integers) from the observed mid-prices; harness-imposed price paths at saturated demand; mirrored run pairs validated by TLC",
             "At saturated demand the documented rule is deterministic: TLC recomputes M from the logged mid-price sequence (decay 1 and 1/2 exactly) and requires buys for M > 0, sells for M < 0, nothing for M = 0, one market order (and one limit order when the ratio is >= 1) per trader; each run is repeated on the reflected price path with the same seed and TLC requires the reflected order flow (sides swapped, same sizes, prices reflected about the level).",
             "6 C17"),
-    "C09": ("TLC (SimEq.tla) compares complete simulation outputs of repeated runs in separate OS processes (same seed twice, progress bar on, shifted seeds) line by line; runs go through the public runners with derive-macro agent sets",
-            "For a seeded matrix of configurations (seeds x step counts x step sizes x tick sizes x six agent compositions incl. nested derived sets, single- and multi-asset) the simulation binary is run as four separate OS processes; TLC requires outputs A = B = C (orders, trades, recorded level-2 history, per-step volume) and D (shifted seeds) different for every substantial run. The behaviours themselves are bound to the specification by C08 and C16. A nondeterminism source stable across these repetitions is not seen.",
+    "C09": ("TLC (SimEq.tla) compares complete simulation outputs of repeated runs in separate OS processes (same seed twice, progress bar on, seeds + 1 and + 2^32, boundary seeds 0/1/2^64-1) line by line; runs go through the public runners with derive-macro agent sets",
+            "For a seeded matrix of configurations (seeds x step counts x step sizes x tick sizes x six agent compositions incl. nested derived sets, single- and multi-asset) the simulation binary is run as five separate OS processes; TLC requires outputs A = B = C (orders, trades, recorded level-2 history, per-step volume) and D (every seed + 1), E (every seed + 2^32) different from A for every substantial run; the seed list contains 0, 1, 2^32-1, 2^63 and 2^64-1. The behaviours themselves are bound to the specification by C08 and C16. A nondeterminism source stable across these repetitions is not seen.",
             "6 C09"),
-    "C15": ("TLC (Shuffle.tla): Fisher-Yates bijection by enumeration for n <= 6; exact Bernstein + union-bound predicate evaluated by TLC on histograms recorded from >= 2.16*10^5 seeded real steps per batch size; generator-state-only determinism clauses",
+    "C15": ("TLC (Shuffle.tla): Fisher-Yates bijection by enumeration for n <= 6; exact Bernstein + union-bound predicate evaluated by TLC on histograms recorded from >= 2.16*10^5 seeded real steps per batch size; generator-state-only determinism clauses (other instructions, instructions referring to orders created in the same step, environments with a history of earlier steps)",
             "Statistical: see level text in the evidence. TLC proves the model's uniformity by bijection and evaluates the stated concentration bound on recorded histograms (all n! permutations for n = 2..6, position-by-item and pairwise tables up to n = 64, Env and MarketEnv, mixed instruction kinds) and the determinism clauses.",
             "6 C15"),
     "C20": ("TLC (AgentSet.tla) enumerates struct shapes; generated #[derive(AgentSet)] / #[derive(MarketAgentSet)] structs compiled against the working tree's macro crate; probe traces validated by TLC against Update(shape) and the hand-written sequence",
-            "95 shapes (1..8 leaves, two leaf types, repeated types, sets nested up to depth 4) x both macros; probe agents reveal call order (order ids), generator sharing (draw indices) and environment sharing; three update calls per shape; TLC requires every leaf exactly once per call, in declaration order, draw k to call k.",
+            "Struct shapes (1..8 leaves, two leaf types, repeated types, sets nested up to depth 4) x how they are written down (field names in / against / unrelated to alphabetical order; fields carrying doc comments, #[allow], true and false #[cfg] predicates) x both macros; probe agents reveal call order (order ids), generator sharing (draw indices) and environment sharing; three update calls per shape; TLC requires every leaf exactly once per call, in declaration order, draw k to call k.",
             "6 C20"),
 }
 
+TABLE["C18"] = (
+    "TLA+ spec PyView.tla (what Python must show for an abstract state) over Book/MarketOps; TLC-generated call sequences (PyBookGen / PyEnvGen, incl. "
+    "out-of-range arguments and off-grid prices) driven through the real compiled extension under CPython and compared with TLC's expected values "
+    "(outcome sets over all schedules for StepEnv); drain probe; snapshot interchange Python <-> Rust both compared with the specification; same-seed "
+    "cross-check against the Rust Env (schedule hook); random Python call sequences validated by TLC (BookTrace.tla Python clauses, PyTrace.tla)",
+    "Python and the Rust core are both compared with one specification, and additionally with each other where the property says so: every bounded call "
+    "sequence of the Python OrderBook API (place/cancel/modify/set_time/toggles/snapshots, every intermediate state, queue order via drain probe), "
+    "exception class and unchanged state for off-grid prices and out-of-range integers (-1, 2^32, 2^64), StepEnv outcome sets over all schedules with "
+    "determinism in the seed and the same processed schedule as the Rust Env under the same seed, snapshots written by either side loaded by the other; "
+    "plus long random sequences recorded through the extension and validated by TLC.",
+    "6 C18")
+TABLE["C19"] = (
+    "TLA+ spec PyView.tla writes down the documented index tables (L1Array, L2Array), dictionary keys (DictKeys/DictEntry) and data-frame columns once; "
+    "TLC computes from them the expected arrays / dictionary / frames for every state of the generator streams (PyEnvGen, asymmetric multi-level books, "
+    "StepEnv and StepEnvNumpy, all four array methods, both dictionaries, both helpers) and recomputes them from the reported order table at every event of "
+    "random traces (PyTrace.tla); compared element by element with the real compiled extension (numpy 2.4 under CPython 3.11; pandas stand-in records the column binding)",
+    "Dynamic, through the real extension: for every outcome of every bounded path over asymmetric books spanning several levels, every cell of "
+    "level_1_data_array / level_2_data_array / level_1_data / level_2_data, the exact key set and every series of both get_market_data dictionaries and "
+    "every column (name, position, content) of both data-frame helpers must equal what PyView.tla specifies; on random traces TLC recomputes all of it "
+    "from get_orders()/get_trades() at every event and checks the dictionary's history against the accumulated per-step values. pandas is absent: a "
+    "stand-in records the column assignment.",
+    "6 C19")
+
 LEVEL = {"C15": "other"}
 
-PENDING = {
-    "C18": "check not built yet (Python binding layer in progress)",
-    "C19": "check not built yet (Python binding layer in progress)",
-}
+PENDING = {}
 
 ALL = ["C%02d" % i for i in range(1, 21)]
 
